@@ -216,7 +216,10 @@ def run(ctx):
     lines += [l for l, _, _, _, _ in fam]
     # math.c: math/floor ceil trunc round abs gcd lcm (model Int64/MathFns.lean, oracle: exact rationals)
     n_math = 4000 if quick else 80000
-    lines += oracle.math_lines(ctx.rng, n_math, oracle.Pools(ctx.rng, 50).n)
+    small_pools = oracle.Pools(ctx.rng, 50)
+    lines += oracle.math_lines(ctx.rng, n_math, small_pools.n)
+    # boot.janet zero? pos? neg? one? even? odd? (model Int64/Preds.lean; table regenerated from boot.janet)
+    lines += oracle.pred_lines(ctx.rng, 3000 if quick else 40000, small_pools)
     seen = set()
     lines = [l for l in lines if not (l in seen or seen.add(l))]
     ctx.say("generated %d distinct cases (%d targeted)" % (len(lines), len(targeted)))
